@@ -124,7 +124,20 @@ def history(rnd, hist_id, length):
     for _ in range(length):
         r = rnd.random()
         anyp = rnd.randrange(len(kinds) + 1)
-        if r < 0.22:
+        if r < 0.025 and directed:
+            # the result document refuses to be written (read-only file) while the operation is out of date; then other
+            # executions / re-checks happen; later the document becomes writable again
+            p_op, p_base = pick('op'), pick('base')
+            ops.append({'op': 'oss.op', 'k': 'edit', 'p': p_base, 'edits': random_edits(rnd, additions=True), 'save': True, 'open': rnd.random() < 0.5})
+            ops.append({'op': 'oss.op', 'k': 'readonly', 'p': p_op, 'on': True})
+            ops.append({'op': 'oss.op', 'k': 'execute', 'p': p_op, 'auto': rnd.random() < 0.5})
+            for _ in range(rnd.choice([1, 2])):
+                ops.append(rnd.choice([{'op': 'oss.op', 'k': 'executeall'}, {'op': 'oss.op', 'k': 'execute', 'p': pick('op'), 'auto': True},
+                                       {'op': 'oss.op', 'k': 'isexecutable', 'p': p_op}, {'op': 'oss.op', 'k': 'isexecutable', 'p': p_op},
+                                       {'op': 'oss.op', 'k': 'open', 'p': p_op}, {'op': 'oss.op', 'k': 'execute', 'p': p_op, 'auto': False}]))
+            if rnd.random() < 0.7:
+                ops.append({'op': 'oss.op', 'k': 'readonly', 'p': p_op, 'on': False})
+        elif r < 0.22:
             ops.append({'op': 'oss.op', 'k': 'execute', 'p': pick('op') if directed and rnd.random() < 0.85 else anyp, 'auto': rnd.random() < 0.3})
         elif r < 0.27:
             ops.append({'op': 'oss.op', 'k': 'executeall'})
@@ -146,6 +159,8 @@ def history(rnd, hist_id, length):
                 # reopened later and the change reported by the source manager
                 ops.append({'op': 'oss.op', 'k': 'open', 'p': p_})
                 ops.append({'op': 'oss.op', 'k': 'announce', 'p': p_})
+        elif r < 0.78:
+            ops.append({'op': 'oss.op', 'k': 'isexecutable', 'p': anyp})
         elif r < 0.79:
             ops.append({'op': 'oss.op', 'k': 'announce', 'p': anyp})
         elif r < 0.81:
@@ -312,7 +327,7 @@ def judge(res, cs, cr):
                 nontrivial = True
         # F2: an operation that reports done was built from the formal content its parents last announced
         for pid, p in snap['picts'].items():
-            if p['status'] != 'done' or 'data' not in p or pid in foreign:
+            if 'data' not in p or pid in foreign:
                 built_from.pop(pid, None)
                 continue
             parents = [snap['picts'].get(str(x), {}) for x in p['parents']]
@@ -322,10 +337,13 @@ def judge(res, cs, cr):
             built = [(fingerprint(x.get('data')), x.get('announced_count', 0)) for x in parents]
             was = before['picts'].get(pid) if before is not None else None
             # the harness document counts result writes: a re-execution is seen even when it reproduces the same content
-            rebuilt = (was is None or was['status'] != 'done' or was.get('doc_writes') != p.get('doc_writes') or was.get('doc') != p.get('doc')
+            # (a status that merely returns to done - after a refused execution, a re-check - is NOT a build)
+            rebuilt = (was is None or 'data' not in was or was.get('doc_writes') != p.get('doc_writes') or was.get('doc') != p.get('doc')
                        or pid not in built_from)
             if rebuilt:
                 built_from[pid] = built
+                continue
+            if p['status'] != 'done':
                 continue
             if not all(x.get('connected') for x in parents):
                 # a parent document the schema is not connected to cannot announce anything to it; staleness is
